@@ -33,8 +33,15 @@ struct World {
 };
 
 // noinline + volatile plumbing: nothing floating-point may happen in the harness while a hostile MXCSR is loaded
+// the x87 control word is part of "the caller's floating-point control word" on x86-64 as well: it follows the rounding bits of the MXCSR under test and must come back unchanged
+static inline unsigned short get_x87cw() { unsigned short cw; asm volatile("fnstcw %0" : "=m"(cw)); return cw; }
+static inline void set_x87cw(unsigned short cw) { asm volatile("fldcw %0" : : "m"(cw)); }
+static volatile int g_x87_changed = 0; static volatile unsigned g_x87_before = 0, g_x87_after = 0;
 static __attribute__((noinline)) unsigned hash_under(randomx_vm* vm, const void* in, size_t n, void* out, unsigned csr) {
-	_mm_setcsr(csr); randomx_calculate_hash(vm, in, n, out); unsigned after = _mm_getcsr(); _mm_setcsr(0x1F80); return after;
+	unsigned short cw = (unsigned short)(0x037F | (((csr >> 13) & 3) << 10)); set_x87cw(cw);
+	_mm_setcsr(csr); randomx_calculate_hash(vm, in, n, out); unsigned after = _mm_getcsr(); _mm_setcsr(0x1F80);
+	unsigned short cw2 = get_x87cw(); set_x87cw(0x037F); if (cw2 != cw) { g_x87_changed = 1; g_x87_before = cw; g_x87_after = cw2; }
+	return after;
 }
 static __attribute__((noinline)) void first_under(randomx_vm* vm, const void* in, size_t n, unsigned csr) { _mm_setcsr(csr); randomx_calculate_hash_first(vm, in, n); _mm_setcsr(0x1F80); }
 static __attribute__((noinline)) unsigned next_under(randomx_vm* vm, const void* in, size_t n, void* out, unsigned csr) { _mm_setcsr(csr); randomx_calculate_hash_next(vm, in, n, out); unsigned a = _mm_getcsr(); _mm_setcsr(0x1F80); return a; }
@@ -89,6 +96,7 @@ int main(int argc, char** argv) {
 		} else a = hash_under(vm, in.data(), in.size(), out, csr);
 		if (memcmp(ref, out, 32)) return "digest under entry MXCSR " + vf::hex64(csr) + " differs from the digest under the default state";
 		if (a != csr) return "MXCSR on return " + vf::hex64(a) + " != MXCSR on entry " + vf::hex64(csr);
+		if (g_x87_changed) { g_x87_changed = 0; return "x87 control word on return " + vf::hex64(g_x87_after) + " != on entry " + vf::hex64(g_x87_before); }
 		return "";
 	};
 	auto piped = [&](int vi, int v2, unsigned c1, unsigned c2, unsigned c3) -> std::string {
@@ -172,8 +180,8 @@ int main(int argc, char** argv) {
 	vf::Evidence ev; ev.level = "exploration";
 	ev.coverage.set("evaluations", (unsigned long long)(total.n["single_calls"] + total.n["pipelined_batches"] + total.n["abandoned_pipelines"])).set("distinct_nontrivial", (unsigned long long)(states.size() * nv * 2))
 		.set("exhaustive", !total.incomplete).set("mxcsr_states", (unsigned long long)states.size()).set("inputs", (unsigned long long)inputs.size())
-		.set("rule", std::string("profile ") + RX_PROFILE + (portable ? " portable build" : "") + ": entry MXCSR states (" + (th && !portable ? "ALL 2^16 values" : "4 rounding modes x FTZ x DAZ x exception masks all/none x flags all/none") + ") x every VM configuration x {v1,v2} x inputs chosen by a pre-pass so that the last program leaves a default / a non-default rounding mode: digest == digest under the default state and MXCSR on return == MXCSR on entry (all bits); pipelined first/next/last with the entry state set independently before each of the three calls (all triples of a reduced state set): digests == single-call digests; abandoned pipelines (first | first,next, then a single-call hash; first, first, last) under all pairs of the reduced state set: the single call keeps its contract (digest, MXCSR on return == on entry) and a restarted pipeline returns the digest of its own input. distinct = (state, configuration, version) combinations")
+		.set("rule", std::string("profile ") + RX_PROFILE + (portable ? " portable build" : "") + ": entry MXCSR states (" + (th && !portable ? "ALL 2^16 values" : "4 rounding modes x FTZ x DAZ x exception masks all/none x flags all/none") + ") x every VM configuration x {v1,v2} x inputs chosen by a pre-pass so that the last program leaves a default / a non-default rounding mode: digest == digest under the default state and MXCSR on return == MXCSR on entry (all bits) and the x87 control word (set to the same rounding mode) unchanged; pipelined first/next/last with the entry state set independently before each of the three calls (all triples of a reduced state set): digests == single-call digests; abandoned pipelines (first | first,next, then a single-call hash; first, first, last) under all pairs of the reduced state set: the single call keeps its contract (digest, MXCSR on return == on entry) and a restarted pipeline returns the digest of its own input. distinct = (state, configuration, version) combinations")
 		;
-	ev.assumptions = { "x86-64 SSE: MXCSR is the FP control/status word used by the library; the x87 control word is not touched by the default build" };
+	ev.assumptions = { "x86-64: MXCSR (all bits) and the x87 control word are observed; the x87 status word / tag word are not (the library executes no x87 instruction on x86-64)" };
 	return vf::finish(args, total, ev, true, true);
 }
